@@ -292,8 +292,18 @@ func staleReads(c *kit.Ctx, ssa bool) {
 			}
 			// now the controller's cache lags the store by `lag` writes for claims (and, in a
 			// second variant, for XRs too)
-			for variant := 0; variant < 2; variant++ {
+			for variant := 0; variant < 3; variant++ {
+				// variant 2: the cache catches up after serving ONE stale claim read (a second read
+				// within the same reconcile, e.g. a re-Get after a conflict, sees the current claim)
+				served := 0
 				lc := w.LaggingClient("claim", func(gk schema.GroupKind) (int64, bool) {
+					if variant == 2 {
+						if gk == claimGK && served == 0 {
+							served++
+							return lag, true
+						}
+						return 0, false
+					}
 					if gk == claimGK || (variant == 1 && gk == xrGK) {
 						return lag, true
 					}
